@@ -40,6 +40,30 @@ func (f *Function) Pipe(name string, args ...interface{}) *Function {
 	return f
 }
 
+// PipeZeroValueOK produces an ast.FunctionNode within a Pipe Chain.
+// The arguments are positional: the ones that evaluate to the zero value are kept.
+// Assumes there is only one Pipe called per Function.
+// Assumes one parent exists.
+func (f *Function) PipeZeroValueOK(name string, args ...interface{}) *Function {
+	if f.err != nil {
+		return f
+	}
+
+	if len(f.Parents) == 0 {
+		f.err = fmt.Errorf("Parent required for function creation")
+		return f
+	}
+
+	fn, err := FuncWithZero(name, args...)
+	if err != nil {
+		f.err = err
+		return f
+	}
+
+	f.prev = Pipe(f.Parents[0], fn)
+	return f
+}
+
 // At produces an ast.FunctionNode within an At Chain.  May return
 // the parent node if all args evaluate to the zero value.
 // Assumes there is only one At called per Function.
